@@ -200,6 +200,7 @@ func checkBitList(t TB, c BLCase) (words int, crossed bool, setAfterAppend bool)
 	for step, op := range c.Ops {
 		var getGot, getWant bool
 		var iterGot, iter2Got []byte
+		bulkTouched := 0
 		pv := try(func() {
 			switch op.Op {
 			case "addbit":
@@ -209,11 +210,22 @@ func checkBitList(t TB, c BLCase) (words int, crossed bool, setAfterAppend bool)
 			case "addbyte":
 				bl.AddByte(byte(op.V))
 			case "bulk":
-				bits := make([]bool, op.N)
-				for i := range bits {
-					bits[i] = patBit(op.V, i)
+				// the argument is a sub-slice of a larger buffer of the caller's (all true behind it)
+				whole := make([]bool, op.N+40)
+				for i := range whole {
+					whole[i] = i >= op.N || patBit(op.V, i)
 				}
-				bl.AddBit(bits...)
+				bl.AddBit(whole[:op.N]...)
+				for i := op.N; i < len(whole); i++ {
+					if !whole[i] {
+						bulkTouched = i - op.N + 1
+					}
+				}
+				for i := 0; i < op.N; i++ {
+					if whole[i] != patBit(op.V, i) {
+						bulkTouched = -1 - i
+					}
+				}
 			case "set":
 				if len(model) > 0 {
 					bl.SetBit(blIndex(op, len(model)), op.Bit)
@@ -279,6 +291,12 @@ func checkBitList(t TB, c BLCase) (words int, crossed bool, setAfterAppend bool)
 			}
 			appended = true
 		case "bulk":
+			if bulkTouched > 0 {
+				fail(step, "AddBit(buf[:%d]...) wrote into the caller's buffer behind the argument (offset +%d)", op.N, bulkTouched-1)
+			}
+			if bulkTouched < 0 {
+				fail(step, "AddBit(buf[:%d]...) changed its argument at index %d", op.N, -1-bulkTouched)
+			}
 			bits := make([]bool, op.N)
 			for i := range bits {
 				bits[i] = patBit(op.V, i)
@@ -490,6 +508,31 @@ func TestC18Exhaustive(t *testing.T) {
 			st.Class("variadic append sweep")
 		})
 	})
+	if thorough() {
+		// "a new list of length n holds n zero bits ... for every n": one list of more than 2^32 bits (512 MiB of
+		// untouched zero pages), spot-checked around the 2^32 boundary (index arithmetic narrower than int)
+		ct.guard(func() {
+			n := 1<<32 + 4096
+			bl := utils.NewBitList(n)
+			if bl.Len() != n {
+				failf(ct, "C18", "bitlist-model", BLCase{New: n}, "NewBitList(%d).Len() = %d", n, bl.Len())
+			}
+			for _, idx := range []int{1<<32 + 5, 1<<32 - 1, 1 << 32, 1<<31 + 7, n - 1} {
+				bl.SetBit(idx, true)
+				for _, probe := range []int{idx, idx - 1<<32, idx - 1<<31, idx &^ (1 << 32), 5, 0, 4095} {
+					if probe < 0 || probe >= n {
+						continue
+					}
+					if got := bl.GetBit(probe); got != (probe == idx) {
+						failf(ct, "C18", "bitlist-model", BLCase{New: n}, "after SetBit(%d, true) on a list of %d zero bits GetBit(%d) = %v", idx, n, probe, got)
+					}
+				}
+				bl.SetBit(idx, false)
+			}
+			st.Eval()
+			st.Class("list of more than 2^32 bits (spot-checked)")
+		})
+	}
 	// a slow consumer: the channel view delivers the whole sequence at whatever pace it is read
 	ct.guard(func() {
 		pause := 2500 * time.Millisecond
